@@ -5,11 +5,13 @@ import (
 	"context"
 	"encoding/json"
 	"fmt"
+	"math/big"
 	"reflect"
 	"runtime"
 	"runtime/debug"
 	"sort"
 	"strings"
+	"time"
 
 	"github.com/iotaledger/hive.go/serializer/v2/serix"
 
@@ -376,7 +378,42 @@ func jsonPart(c *cli.Ctx) *cli.PartResult {
 			subst(doc, feed)
 		}
 	}
-	return rec.result(exhaustive, fmt.Sprintf("%d shapes: top-level atoms and every single-subtree replacement (and every missing key) of well-shaped documents, through JSONDecode and MapDecode", ns))
+	// destinations that are not structs: every top-level atom, array of atoms and nested array
+	if c.Shard == 0 {
+		var docs []any
+		for _, a := range atoms {
+			var av any
+			_ = json.Unmarshal([]byte(a), &av)
+			docs = append(docs, av, []any{av}, []any{av, av}, []any{[]any{av}}, map[string]any{"k": av})
+		}
+		for _, t := range []reflect.Type{
+			reflect.TypeOf([]uint64{}), reflect.TypeOf(uint64(0)), reflect.TypeOf(int8(0)), reflect.TypeOf(true), reflect.TypeOf([]string{}), reflect.TypeOf(""),
+			reflect.TypeOf(time.Time{}), reflect.TypeOf([4]byte{}), reflect.TypeOf([]byte{}), reflect.TypeOf(map[string]uint8{}), reflect.TypeOf(&big.Int{}),
+			reflect.TypeOf(serixgen.Str8("")), reflect.TypeOf(serixgen.LexU16s{}), reflect.TypeOf(float64(0)), reflect.TypeOf([][]uint16{}),
+		} {
+			t := t
+			ns++
+			for _, doc := range docs {
+				js, err := json.Marshal(doc)
+				if err != nil {
+					continue
+				}
+				for _, validate := range []bool{false, true} {
+					var opts []serix.Option
+					if validate {
+						opts = append(opts, serix.WithValidation())
+					}
+					rec.distinct++
+					rec.call("serix.JSONDecode["+t.String()+"]", string(js), len(js), func() int {
+						q := reflect.New(t)
+						_ = api.JSONDecode(ctx, js, q.Interface(), opts...)
+						return 0
+					})
+				}
+			}
+		}
+	}
+	return rec.result(exhaustive, fmt.Sprintf("%d shapes: top-level atoms and every single-subtree replacement (and every missing key) of well-shaped documents, through JSONDecode and MapDecode; 15 non-struct destinations with every atom, arrays of atoms, nested arrays and one-key objects at the top level", ns))
 }
 
 func main() {
